@@ -527,6 +527,7 @@ func runC07(e *Engine, r *Report) {
 				reqBool("rejected is true", func(v ssa.Value) bool { p, ok := v.(*ssa.Parameter); return ok && p.Name() == "rejected" }, true))
 		}
 	}
+	borrow(e, r, "C08", "MPT-restore-replaces")
 }
 
 // isRangeKeyOf: key is the key produced by ranging over the same map field.
